@@ -607,6 +607,18 @@ def make_case(rng, radius, settings=None):
     return dict(setting=name, cell=cell, latt=latt, symm=list(symm), atoms=atoms)
 
 
+# the witnesses of the two open findings run first in every run, so that a finding that disappears is noticed
+WITNESSES = [
+    # C13|molindex|hydrogen-only-components-unnumbered: C, H, H far from each other
+    dict(setting='Pc', cell=[9.0, 10.0, 11.0, 90.0, 100.0, 90.0], latt=-1, symm=['X, -Y, 1/2+Z'],
+         atoms=[dict(name='C1', el='C', xyz=[0.1, 0.1, 0.1], part=0), dict(name='H1', el='H', xyz=[0.4, 0.3, 0.2], part=0),
+                dict(name='H2', el='H', xyz=[0.7, 0.35, 0.6], part=0)]),
+    # C13|no-item|distance-beyond-cut: 5.6 A apart in a cell whose smallest spacing is 14 A
+    dict(setting='P1', cell=[14.0, 15.0, 16.0, 90.0, 90.0, 90.0], latt=-1, symm=[],
+         atoms=[dict(name='C1', el='C', xyz=[0.1, 0.1, 0.1], part=0), dict(name='O1', el='O', xyz=[0.5, 0.1, 0.1], part=0)]),
+]
+
+
 def run(ctx):
     ctx.rule = ('generated structures: 2..12 atoms (C N O H D S Cl F P Si Br Fe B Zn; PART 0/1/2/-1), primitive settings '
                 + ', '.join(s[0] for s in SETTINGS if abs(s[2]) in LATTICE_TYPES) +
@@ -619,7 +631,7 @@ def run(ctx):
                        f'lattice types generated: {LATTICE_TYPES} (centred settings wait for C11)']
     radius = lib_constants()
     n = ctx.budget(300, 5000)
-    cases = []
+    cases = [dict(w) for w in WITNESSES]
     settings = [s for s in SETTINGS if abs(s[2]) in LATTICE_TYPES]
     for k in range(n):
         # every setting in turn, so that even the quick tier visits all of them
